@@ -32,7 +32,7 @@ VARIABLES spp,        \* dof -> shared-dof id or -1          (shared_per_patch)
           hist        \* sequence of interface ids (history variable, hidden by VIEW)
 
 vars == <<spp, sdofs, cnt, fin, hist>>
-View == <<spp, sdofs, cnt, fin>>
+View == <<spp, sdofs, cnt, fin, Len(hist)>>    \* the join bound depends on Len(hist) (see HSpace.tla)
 
 W   == <<W1, W2, W3>>
 NP  == IF Kind = "ring" THEN K ELSE FoldLeft(LAMBDA a, i : a * W[i], 1, [i \in 1..D |-> i])
